@@ -112,7 +112,7 @@ func tryReplay(e *Engine, prop string, o *Obligation, r SolveResult) (bool, inte
 		if err != nil {
 			return false, "harness missing: " + ent.Harness
 		}
-		if r.Status != "sat" && len(ent.Defaults) == 0 {
+		if r.Status != "sat" && !r.Relaxed && len(ent.Defaults) == 0 {
 			return false, "no model from the solver (" + r.Status + ")"
 		}
 		src, missing := fillTemplate(string(tmpl), r.Model, ent.Defaults)
